@@ -43,11 +43,12 @@ type c08Scenario struct {
 
 func init() {
 	register(&PropDef{
-		ID:   "C08",
-		Rule: "scenario = (client or component, TCP or TCP+TLS, SM on/off, traffic logger none/recording/failing, 1-4 sender tasks x 1-10 Send/SendRaw/SendIQ of stanzas up to 64 KiB, optional socket write failure at the j-th write with 0 or partial bytes); non-trivial = session established and at least two sends issued; distinct = distinct (scenario hash, schedule hash)",
-		Real: []string{"Client/Component Send, SendRaw, SendIQ", "streamLogger", "XMPPTransport.Write (over crypto/tls in the TLS configuration)", "SM bookkeeping on the send path"},
-		Stub: []string{"TCP (simnet) with write-failure injection", "XMPP server (scripted model; byte stream re-split by the independent splitter)", "log file (in-memory writer with injected errors)", "clock (synctest)", "goroutine scheduling (token scheduler)", "WebSocket transport not exercised"},
-		Run:  runC08,
+		ID:    "C08",
+		Rule:  "scenario = (client or component, TCP or TCP+TLS, SM on/off, traffic logger none/recording/failing, 1-4 sender tasks x 1-10 Send/SendRaw/SendIQ of stanzas up to 64 KiB, optional socket write failure at the j-th write with 0 or partial bytes); non-trivial = session established and at least two sends issued; distinct = distinct (scenario hash, schedule hash)",
+		Real:  []string{"Client/Component Send, SendRaw, SendIQ", "streamLogger", "XMPPTransport.Write (over crypto/tls in the TLS configuration)", "SM bookkeeping on the send path"},
+		Stub:  []string{"TCP (simnet) with write-failure injection", "XMPP server (scripted model; byte stream re-split by the independent splitter)", "log file (in-memory writer with injected errors)", "clock (synctest)", "goroutine scheduling (token scheduler)", "WebSocket transport not exercised"},
+		Run:   runC08,
+		Reach: []string{"c08.websocket", "c08.backpressure", "c08.socket_write_failed", "c08.sends_without_a_connection", "tls.handshake_complete"},
 	})
 }
 
